@@ -71,6 +71,7 @@ MCInit == Init /\ di \in Which
 OneEOL == {<<10>>}
 OneEntryEOL == {<<32, 10>>}
 OneHdrSep == {<<32>>}
+OneMidSep == {<<32>>}
 OneEmpty == {<<>>}
 OnlyFalse == {FALSE}
 OnlyPlain == {"plain"}
